@@ -211,6 +211,11 @@ func runC08(r *Report, tier string) {
 	r.rule("R09.1", "(shared with C09) every structure decoder stores the same-named wire slots unchanged.")
 	checkDecoderSlots(r, "R09.1")
 	checkUnprotectedEncoderTagFree(r, "R08.6")
+	// what the bucket marshalers hand to the wire struct is raw bytes only
+	// when there are any: an empty non-nil raw slice is not "the raw bytes"
+	// (it would be emitted as null, which the decoder refuses)
+	r.rule("R09.2", "(shared with C09) MarshalProtected / MarshalUnprotected return the raw bytes exactly when len > 0, otherwise the validated encoding of the map.")
+	checkMarshalBuckets(r, "R09.2")
 	// what the unprotected encoder can emit under labels 7 / 11 (one
 	// countersignature or a list of any length) is not refused by head byte
 	if cs := P.countersigValueDecoder(); cs != nil {
